@@ -55,6 +55,7 @@ class TS:
         ex = ts_extract.Extractor(repo_file("_rwlock.py"))
         self.locks = list(ex.locks)
         self.rlocks = set(ex.rlocks)
+        self.counter_init = ex.counter_init
         self.counters = list(ex.counters)
         self.progs = [ts_extract.flatten(ex.thread_program("reader"))] * NR + \
                      [ts_extract.flatten(ex.thread_program("writer"))] * NW
@@ -66,7 +67,8 @@ class TS:
 
     # ---- concrete semantics (search / validation / replay planning) -------------------
     def init_state(self):
-        return (tuple([0] * self.nt), tuple([0] * self.nt), tuple([0] * len(self.shared)))
+        return (tuple([0] * self.nt), tuple([0] * self.nt),
+                tuple(self.counter_init if v in self.counters else 0 for v in self.shared))
 
     def step(self, st, t):
         """successor of st when thread t moves, None if blocked; 'ERR' on release of a free lock"""
@@ -102,9 +104,9 @@ class TS:
         elif kind == "read":
             tmps[t] = sh[self.shared.index(var)]
         elif kind == "write+":
-            sh[self.shared.index(var)] = tmps[t] + 1
+            sh[self.shared.index(var)] = tmps[t] + (1 if k is None else k)
         elif kind == "write-":
-            sh[self.shared.index(var)] = tmps[t] - 1
+            sh[self.shared.index(var)] = tmps[t] - (1 if k is None else k)
         elif kind == "test":
             if sh[self.shared.index(var)] != k:
                 nxt = pcs[t] + 2
@@ -158,7 +160,8 @@ class TS:
 
     def init_formula(self, V):
         pcs, tmps, sh = V
-        return z3.And(*[x == 0 for x in pcs + tmps + sh])
+        return z3.And(*([x == 0 for x in pcs + tmps] +
+                        [x == (self.counter_init if v in self.counters else 0) for v, x in zip(self.shared, sh)]))
 
     def commands(self, V, V2):
         """[(name, guard, effect)] for every thread / pc"""
@@ -183,9 +186,9 @@ class TS:
                 elif kind == "read":
                     ntmp[t] = sh[self.shared.index(var)]
                 elif kind == "write+":
-                    nsh[self.shared.index(var)] = tmps[t] + 1
+                    nsh[self.shared.index(var)] = tmps[t] + (1 if k is None else k)
                 elif kind == "write-":
-                    nsh[self.shared.index(var)] = tmps[t] - 1
+                    nsh[self.shared.index(var)] = tmps[t] - (1 if k is None else k)
                 elif kind == "test":
                     nxt = z3.If(sh[self.shared.index(var)] == k, z3.IntVal(pc + 1), z3.IntVal((pc + 2) % len(prog)))
                 eff = [pcs2[u] == (nxt if u == t else pcs[u]) for u in range(self.nt)] + \
@@ -212,6 +215,8 @@ class TS:
 
 
 def derive_invariant(ts):
+    if ts.counter_init != 0 or any(s_[0] in ("write+", "write-") and s_[2] not in (None, 1) for p_ in ts.progs for s_ in p_):
+        raise ts_extract.ExtractError("counters that do not start at 0 / do not move by 1 are outside the counting-invariant template")
     if ts.rlocks:
         raise ts_extract.ExtractError("owned / re-entrant locks %s are outside the counting-invariant template" % sorted(ts.rlocks))
     return _derive_invariant(ts)
@@ -342,6 +347,7 @@ def rwlock(vc):
         from pyvc.core import Undecided
         raise Undecided("invariant template does not fit the lock code: %s" % e)
     vc.record("Inv.derived-from-the-commands", True, "evaluation", time.time() - t1, "counting invariant of the light switches")
+    all_ok = [True]
     V, V2 = ts.vars(), ts.vars("_n")
     I1, I2 = inv(V), inv(V2)
     witness = []
@@ -354,15 +360,21 @@ def rwlock(vc):
         return witness[0]
 
     r = _unsat(ts.init_formula(V), z3.Not(I1))
+    all_ok[0] &= (r == z3.unsat)
     vc.record("Inv.init", r == z3.unsat, "z3", 0.0, str(r), model=None if r == z3.unsat else model())
     for name, g, eff in ts.commands(V, V2):
         t2 = time.time()
         r = _unsat(I1, g, eff, z3.Not(I2))
+        all_ok[0] &= (r == z3.unsat)
         vc.record("Inv.preserve[%s]" % name, r == z3.unsat, "z3", time.time() - t2, str(r),
                   model=None if r == z3.unsat else model())
     for nm, b in ts.bad_formulas(V).items():
         r = _unsat(I1, b)
+        all_ok[0] &= (r == z3.unsat)
         vc.record("Inv=>no-%s" % nm, r == z3.unsat, "z3", 0.0, str(r), model=None if r == z3.unsat else model())
+    if all_ok[0]:
+        # the summary clause (the one a tree outside the invariant template is judged by): an inductive invariant exists
+        vc.record("Inv.exists(safety+deadlock-freedom+no-release-of-free-lock)", True, "z3", 0.0, "the derived invariant is inductive and excludes the bad states")
     # cover: two readers in the critical section together (and Inv is not empty there)
     sched = ts.search(lambda st: ts.in_cs(st, 0) and ts.in_cs(st, 1))
     ok = sched is not None
@@ -466,13 +478,17 @@ def replay_schedule(M, sched):
                     holders.append(t)
                     if any(ts.kinds[h] == "writer" for h in holders):
                         bad.append("reader %d together with a writer" % t)
+                    arrived[t].release()        # the critical section is a scheduled step of its own:
+                    go[t].acquire()             # the thread HOLDS the lock until the schedule moves it on
                     holders.remove(t)
                     lock.reader_release()
                 else:
                     lock.writer_acquire()
                     holders.append(t)
                     if len(holders) > 1:
-                        bad.append("writer %d not alone: %s" % (t, holders))
+                        bad.append("writer %d not alone: %s" % (t, list(holders)))
+                    arrived[t].release()
+                    go[t].acquire()
                     holders.remove(t)
                     lock.writer_release()
           except Exception as e:       # e.g. RuntimeError: cannot release un-acquired lock
@@ -496,6 +512,7 @@ def replay_schedule(M, sched):
             break
         go[t].release()
         time.sleep(0.001)
+    time.sleep(0.1)        # the thread moved last reaches its critical section (or its next line) before anybody is released
     # let everybody run freely for a moment and look for a deadlock
     for t in range(nt):
         for _ in range(400):
